@@ -9,6 +9,7 @@ Oracle: the algebraic laws of the statement, plus pmc.ref.roles as a second opin
 """
 
 import copy
+import itertools
 
 from pmc.domains import models as M
 from pmc.domains import trees as T
@@ -42,6 +43,7 @@ def shards(tier, seed):
     for name, alpha in (('DEFAULT', 'c13default'), ('AMR', 'c13amr'), ('MINI', 'c13amr'), ('NOOP', 'c13default')):
         n, b = (3, 3) if (tier != 'quick' or name in ('DEFAULT', 'AMR')) else (2, 2)
         out += T.shard_list(n, b, 2, alpha, extra={'sub': 'trees', 'model': name, 'bounds': f'TREE({n},{b},2) over roles with inversions and alignments x DEFAULT, AMR, MINI, NOOP'})
+    out.append({'sub': 'rebuilt', 'bounds': 'pairs of models built one after the other from the same (then extended) role dict, and from short-lived dicts'})
     tiny = M.names('tiny')
     for name in tiny[seed % 7::7] if tier == 'quick' else tiny:
         out += T.shard_list(2, 2, 2, 'c13tiny', pin=1, extra={'sub': 'trees', 'model': name, 'bounds': 'TREE(2,2,2) over TINY roles x TINY tables (quick: every 7th table, offset VERIF_SEED)'})
@@ -57,6 +59,14 @@ T.ALPHABETS['c13tiny'] = {'concepts': [T.ABSENT, 'x'], 'atoms': ['k'], 'refs': '
 
 
 def cases(shard):
+    if shard['sub'] == 'rebuilt':
+        universe = [':a', ':a-of', ':b', ':consist-of', ':c[0-9]']
+        for n in range(len(universe) + 1):
+            for first in itertools.combinations(universe, n):
+                for extra in universe:
+                    if extra not in first:
+                        yield {'first': list(first), 'extra': extra}
+        return
     if shard['sub'] == 'roles':
         name = shard['model']
         bases = BASES['TINY'] if name.startswith('TINY') else BASES[name]
@@ -86,7 +96,37 @@ def _colon(r):
     return r if r.startswith(':') else ':' + r
 
 
+PROBES = [':a', ':a-of', ':a-of-of', ':b', ':b-of', ':consist-of', ':consist-of-of', ':consist', ':c1', ':c1-of', ':zz-of']
+
+
+def _check_rebuilt(case, ctx):
+    from penman.model import Model
+    from pmc.ref.roles import RefModel
+    d = {r: {} for r in case['first']}
+    m1 = Model(roles=d)
+    for _ in range(3):
+        Model(roles={r: {} for r in case['first']})       # short-lived tables in between
+    d[case['extra']] = {}
+    m2 = Model(roles=d)
+    ctx.transitions += 2
+    for m, roles in ((m1, case['first']), (m2, case['first'] + [case['extra']])):
+        rm = RefModel(list(roles))
+        for r in PROBES:
+            ctx.validated += 1
+            got = (m.has_role(r), m.is_role_inverted(r), m.invert_role(r), m.canonicalize_role(r))
+            # m1 was built before the dict was extended: it must keep answering for its own table
+            want = (rm.has_role(r), rm.is_inverted(r), rm.invert_role(r), rm.canonicalize_role(r))
+            if got != want:
+                ctx.fail('a model built from a role table answers for a different table (has_role, is_role_inverted, invert_role, canonicalize_role)',
+                         expected=[r, list(want)], observed=[sorted(roles), list(got)])
+                return
+    ctx.nontrivial += 1
+
+
 def check(case, ctx):
+    if ctx.sub == 'rebuilt':
+        _check_rebuilt(case, ctx)
+        return
     name = case['model']
     pm, rm = M.get(name)
     if 'role' in case:
